@@ -191,6 +191,16 @@ func (c *cur) i16() int {
 	c.b = c.b[2:]
 	return v
 }
+func (c *cur) u16() int {
+	if len(c.b) < 2 {
+		c.ok = false
+		c.b = nil
+		return 0
+	}
+	v := int(binary.BigEndian.Uint16(c.b))
+	c.b = c.b[2:]
+	return v
+}
 func (c *cur) i32() int {
 	if len(c.b) < 4 {
 		c.ok = false
@@ -248,7 +258,7 @@ func Decode(m Msg) M {
 			c.ok = false
 		}
 	case 'T':
-		n := c.i16()
+		n := c.u16() // counts are unsigned 16-bit quantities
 		r["n"] = n
 		names := []any{}
 		oids := []any{}
@@ -274,7 +284,7 @@ func Decode(m Msg) M {
 		r["oids"] = oids
 		r["fmts"] = fmts
 	case 'D':
-		n := c.i16()
+		n := c.u16()
 		r["n"] = n
 		cells := []any{}
 		raws := [][]byte{}
@@ -341,7 +351,7 @@ func Decode(m Msg) M {
 		r["fields"] = fields
 		r["dup"] = dup
 	case 't':
-		n := c.i16()
+		n := c.u16()
 		r["n"] = n
 		oids := []any{}
 		for i := 0; i < n && c.ok; i++ {
@@ -356,7 +366,7 @@ func Decode(m Msg) M {
 		r["oids"] = oids
 	case 'G', 'H', 'W':
 		r["fmt"] = int(c.u8())
-		n := c.i16()
+		n := c.u16()
 		r["n"] = n
 		fmts := []any{}
 		for i := 0; i < n && c.ok; i++ {
